@@ -10,7 +10,7 @@ from vlib import common, lanes, netlist, ref2
 LEVEL = 'model_checking'
 ASSUME = [
     'circuit structure is concrete: corpus G1 (all primitive kinds x pin patterns), G2 (hand-made shapes), G3 (seeded random DAGs), G4 (repo netlists); stimuli are fully symbolic',
-    'explicitly sized kinds (AND4, ...) with trailing unconnected pins are excluded (ambiguous between "reads 0" and "arity by connection")',
+    'an unconnected input pin reads constant 0 (statement); sized AND/NAND kinds with trailing open pins are included and reported under a known finding',
     'oracle ref2 (vlib/ref2.py) is trusted: gate functions from the documentation, forks transparent, DFF pin1 = not(state), latch = state element, open pin = 0, a driven port passes its value on',
     'initial content of signal memory is arbitrary (symbolic garbage) except the constant-zero slot; results must not depend on it',
     'z3 bit-vector theory; numpy object-array dispatch to Python operators',
@@ -23,6 +23,8 @@ def corpus(tier, seed):
         for style in ('bench', 'verilog'):
             items.append((('nl', nl.to_json(), style), 3, 'plain'))
         items.append((('nl', nl.to_json(), 'lean'), 8, 'cb'))
+    for nl in netlist.g1_sized_trailing_open():
+        items.append((('nl', nl.to_json(), 'verilog'), 3, 'plain'))
     for nl in netlist.g2_shapes():
         for style in ('bench', 'verilog', 'lean'):
             for sims in (1, 3, 8, 9, 17):
@@ -141,6 +143,11 @@ def classify(recipe, sims, variant, in_bytes):
     if not bad: return False, None, 'not reproduced'
     c = netlist.from_recipe(recipe)
     name = recipe[1]['name'] if recipe[0] == 'nl' else recipe[1]
+    ref2.SIZED_BY_CONNECTION = True
+    try: alt, _ = concrete(recipe, sims, variant, in_bytes)
+    finally: ref2.SIZED_BY_CONNECTION = False
+    if not alt:
+        return True, 'shape=sized-and-trailing-open-pin', f'{name}: a sized AND/NAND-type primitive with trailing open pins takes its arity from the connected pins instead of reading 0: {bad[0]}'
     if has_driven_port_with_readers(c) and not bad_cut:
         return True, 'shape=driven-port-with-fanout', f'{name}: port with driver and readers is cut, readers see the assigned value: {bad[0]}'
     return True, f'circuit={name}/{recipe[2] if recipe[0] == "nl" else ""}/{variant}', f'sims={sims}: (what, node, byte, simulated, netlist value)={bad[0]}'
